@@ -88,11 +88,12 @@ func lakeQueryVals(ctx context.Context, l *lk.Lake, src string, optimize bool, p
 		return r.vals, r.err
 	case <-time.After(hangLimit(ctx)):
 		cancel()
-		if !hangConfirming(ctx) {
+		if !hangConfirming(ctx) && !hangAlreadyConfirmed(src, optimize) {
 			// Not believed yet: a loaded machine can be this slow.  Run it once more on
 			// its own with six times the limit; only a second timeout is a hang.
 			return lakeQueryVals(context.WithValue(ctx, hangKey{}, true), l, src, optimize, parallelism)
 		}
+		hangRemember(src, optimize)
 		return nil, errHang
 	}
 }
